@@ -832,6 +832,26 @@ class DoneProp(core.Prop):
             wop, entry = sess.run(op)
             wops.append(wop)
             trace.append(entry)
+        # after the history (nothing here reaches the model): "get_reward hands out what has accrued and the accumulator
+        # is EMPTY afterwards", also for amounts that exact arithmetic cannot subtract - an infinite sentinel a
+        # subclass's step put there (seeded change C17-r3m2: `rewards[a] -= reward` leaves inf - inf = nan)
+        rew = getattr(sess.sim, "rewards", None)
+        if isinstance(rew, dict) and rew:
+            for k, sentinel in zip(list(rew)[:2], (float("inf"), float("-inf"))):
+                try:
+                    rew[k] = sentinel
+                    first = sess.sim.get_reward(k)
+                    second = sess.sim.get_reward(k)
+                    left = sess.sim.rewards[k]
+                except Exception as ex:  # noqa: BLE001
+                    self._note_runtime("get_reward raised for an infinite accumulator: %s" % type(ex).__name__,
+                                       {"kind": "smart", "world": world, "cfg": cfg, "ops": ops})
+                    break
+                if first != sentinel or second != 0 or left != 0:
+                    self._note_runtime("an infinite amount in a reward accumulator is not handed out exactly once: first "
+                                       "read %r, second read %r, left %r" % (first, second, left),
+                                       {"kind": "smart", "world": world, "cfg": cfg, "ops": ops})
+                    break
         line = wire.enc(["gsmart", sess.stat, sess.dyn0, cw, wops, trace])
         tags = ["smart", "dones:%d" % len(sess.done_list or []), "observers:%s" % (len(sess.obs_list) if sess.obs_list is not None else "unset"),
                 "states:%s" % (len(sess.state_list) if sess.state_list is not None else "unset"), "enc_via:" + cfg["enc_via"]]
